@@ -177,7 +177,46 @@ def run(tier, seed, rng):
     # counts in {-2..3} incl. negative ones: flip the count-bearing bytes (done by the byte flips) and add explicit constants
     records, disagreements = pktcases.run_groups(groups, 'c08')
     failures = []
-    out = dict(seq=0, counted=0, until=0, when_false=0, opt=0, selected=0, ref=0, unevaluable=0, parsed=0, positions=0, positions_not_covered=0, bad=[])
+    # ---- a selector given as a callable that builds a FRESH packet on every call, the selected class changing from element to
+    # element and from parse to parse: each element is parsed as the class selected for IT and parsing continues right after it
+    import itertools as _it
+    fsrc = ("class FS(Packet):\n    tag = Int(1)\n    val = Int(1)\n"
+            "class FL(Packet):\n    tag = Int(1)\n    val = Int(2)\n"
+            "class FM(Packet):\n    tag = Int(1)\n    val = Int(3)\n"
+            "def _pick(raw, offset):\n    t = raw[offset]\n    return FL() if t & 0x80 else (FM() if t & 0x40 else FS())\n"
+            "class FRec(Packet):\n    n = Int(1)\n    items = Ref(lambda pkt, raw, offset, **k: _pick(raw, offset), default=FS()).repeated(count=n)\n    trailer = Data(2)\n"
+            "class FRecL(Packet):\n    __bisturi__ = {'generate_for_pack': False, 'generate_for_unpack': False}\n    n = Int(1)\n"
+            "    items = Ref(lambda pkt, raw, offset, **k: _pick(raw, offset), default=FS()).repeated(count=n)\n    trailer = Data(2)\n"
+            "class FOne(Packet):\n    r = Ref(lambda pkt, raw, offset, **k: _pick(raw, offset), default=FS())\n    z = Int(1)\n")
+    kinds = {'S': (0x01, 1, 'FS'), 'L': (0x81, 2, 'FL'), 'M': (0x41, 3, 'FM')}
+    fcases, fmeta = [], []
+    seqs = [q for L in range(1, 4) for q in _it.product('SLM', repeat=L)]
+    for q in seqs:
+        body, want = b'', []
+        for i, kch in enumerate(q):
+            tag, w, cn = kinds[kch]
+            v = (7 + 3 * i) % 250
+            body += bytes([tag]) + v.to_bytes(w, 'big')
+            want.append((cn, tag, v))
+        raw = bytes([len(q)]) + body + b'TR'
+        for cls in ('FRec', 'FRecL'):
+            fcases.append(dict(cls=cls, op='roundtrip', raw=raw.hex(), offset=0)); fmeta.append((cls, raw, want))
+    for q in [('S', 'L', 'S', 'M', 'L', 'L', 'S')]:
+        for kch in q:                      # single references parsed one after the other in one process
+            tag, w, cn = kinds[kch]
+            raw = bytes([tag]) + (9).to_bytes(w, 'big') + b'\x2a'
+            fcases.append(dict(cls='FOne', op='roundtrip', raw=raw.hex(), offset=0)); fmeta.append(('FOne', raw, [(cn, tag, 9)]))
+    fres = run_impl(os.path.join(VERIF, 'harness', 'impl_pkt.py'), dict(header=decl.HEADER_PY, blocks=[dict(name='fresh', src=fsrc)], modname='c08f', cases=fcases))
+    for (cls, raw, want), o in zip(fmeta, fres['outcomes']):
+        got = None
+        if 'ok' in o:
+            f = dict(o['ok']['f'])
+            items = f['items'] if cls != 'FOne' else [f['r']]
+            got = [(it.get('p'), dict(it['f']).get('tag'), dict(it['f']).get('val')) if isinstance(it, dict) else it for it in items]
+        if got != want or o.get('end') != len(raw):
+            failures.append(dict(kind='oracle', sig='fresh-selector', what=f"a selector building a fresh packet per call: elements must parse as {want} and the parse must end at {len(raw)}; observed {got}, end {o.get('end')}",
+                                 classes=fsrc, cls=cls, raw=raw.hex(), offset=0, observed=o))
+    out = dict(seq=0, counted=0, until=0, when_false=0, opt=0, selected=0, ref=0, unevaluable=0, parsed=0, positions=0, positions_not_covered=0, bad=[], fresh_selector_cases=len(fcases))
     for r in records:
         if r['kind'] != 'roundtrip' or 'ok' not in r['outcome']:
             continue
